@@ -158,6 +158,67 @@ class CallGraph:
                 s = strip(init)
                 if s and s["k"] == "DeclRefExpr" and s.get("dk") == "func":
                     self.global_funcs.setdefault(gname, set()).add(s["name"])
+        # function values that travel through a local (`impl = a; if (..) impl = b; global = impl;`) or a conditional
+        # expression: flow-insensitive, every function the local may hold
+        self.local_funcs = {}    # (function, local) -> set of function names
+
+        def fvals(name, e):
+            e = strip(e)
+            if e is None:
+                return set()
+            if e["k"] == "DeclRefExpr":
+                if e.get("dk") == "func":
+                    return {e["name"]}
+                if e.get("dk") in ("local", "slocal"):
+                    return set(self.local_funcs.get((name, e["name"]), ()))
+                return set()
+            if e["k"] == "ConditionalOperator":
+                return fvals(name, e["kids"][1]) | fvals(name, e["kids"][2])
+            return set()
+
+        changed = True
+        while changed:
+            changed = False
+            for (u, name), f in self.funcs.items():
+                for n in walk(f.body):
+                    if n["k"] == "DeclStmt":
+                        for d in n["decls"]:
+                            if d.get("init") is not None:
+                                src = fvals(name, d["init"])
+                                dst = self.local_funcs.setdefault((name, d["name"]), set())
+                                if src and not src <= dst:
+                                    dst |= src
+                                    changed = True
+                    if n["k"] == "BinaryOperator" and n.get("op") == "=":
+                        r = strip(n["kids"][1])
+                        l = strip(n["kids"][0])
+                        if r is None or l is None:
+                            continue
+                        src = fvals(name, r)
+                        if not src:
+                            continue
+                        if l["k"] == "MemberExpr":
+                            dst = self.member_funcs.setdefault((l.get("rec"), l["field"]), set())
+                        elif l["k"] == "DeclRefExpr" and l.get("dk") == "global":
+                            dst = self.global_funcs.setdefault(l["name"], set())
+                        elif l["k"] == "DeclRefExpr" and l.get("dk") in ("local", "slocal"):
+                            dst = self.local_funcs.setdefault((name, l["name"]), set())
+                        else:
+                            continue
+                        if not src <= dst:
+                            dst |= src
+                            changed = True
+                    if n["k"] == "CallExpr" and n.get("callee"):
+                        for i, a in enumerate(n["kids"][1:]):
+                            sa = strip(a)
+                            if sa is None or (sa["k"] == "DeclRefExpr" and sa.get("dk") == "func"):
+                                continue
+                            src = fvals(name, sa)
+                            if src:
+                                dst = self.param_funcs.setdefault((n["callee"], i), set())
+                                if not src <= dst:
+                                    dst |= src
+                                    changed = True
         # a member that receives a parameter which receives functions: x->cb = cb
         changed = True
         while changed:
